@@ -33,10 +33,11 @@ ASSUMPTIONS = [
     "coverage.sigkill_conformance)",
     "HDF5 writes bypass Python; they are modelled as file absent -> empty -> "
     "half -> all-but-one byte -> complete",
-    "recovery procedure: Crop(name, dir) (with the user's fn/farmer and "
-    "autoload=False if that raises) -> re-sow if not prepared / fewer batch "
-    "files than num_batches / a later step fails (at most once) -> "
-    "check_bad -> grow_missing -> reap",
+    "recovery procedure: Crop(name, dir); if that raises, or the crop is not "
+    "prepared, or has fewer batch files than num_batches, or a later step "
+    "fails (at most once): re-run the sow script (the same constructor call "
+    "with default autoload, and the same sow call) -> check_bad -> "
+    "grow_missing -> reap",
 ]
 
 COMBOS = {"a": [1, 2, 3], "b": [4, 5]}
@@ -62,6 +63,8 @@ SCENARIOS = {
     # name: (kind, batch kwargs, engine, earlier)
     "raw-bs2": ("raw", {"batchsize": 2}, None, None),
     "raw-nb4": ("raw", {"num_batches": 4}, None, None),
+    # (short last batch: 4 + 2)
+    "raw-bs4": ("raw", {"batchsize": 4}, None, None),
     "runner": ("runner", {"batchsize": 2}, None, None),
     "harv-h5-disjoint": ("harvester", {"batchsize": 2}, "h5netcdf", "disjoint"),
     "harv-h5-noext": ("harvester", {"batchsize": 3}, "h5netcdf", "overlap"),
@@ -304,7 +307,7 @@ def recover(sc, d):
                 except Exception:
                     crop = None
             if crop is None:
-                crop = sc.new_crop(d, autoload=False)
+                crop = sc.new_crop(d)
                 sc.sow(crop)
                 resown = 1
             with core.Silence():
